@@ -430,7 +430,16 @@ def r02_4(ctx, prog, crate):
                           "TSC read sequence is %s, expected %s" % (list(seq), want), b.where(p[-1]))
 
 
+def r02_5(ctx, prog, crate):
+    """The figures of a sample are the operations between its two timestamps ONLY if the clear before the start timestamp
+    really resets the tally: ThreadAllocInfo::clear is unconditional and total (clause shared with C10, R10.5)."""
+    from .C10 import r10_5
+    from .common import Renamed
+    r10_5(Renamed(ctx, "R02.5"), prog, crate)
+
+
 def run(ctx, prog, crate):
+    r02_5(ctx, prog, crate)
     rec = r02_1(ctx, prog, crate)
     r02_2(ctx, prog, crate, rec)
     r02_3(ctx, prog, crate)
